@@ -230,6 +230,22 @@ fn fault_families(prop: &'static str, kind: FaultKind, counts: [u64; 6], sweep_l
             world_case(cfg, steps, fault_for(kind, 0, r.next(), 96))
         }),
     });
+    if matches!(kind, FaultKind::Io) {
+        v.push(Family {
+            name: "writer-serving-proofs",
+            count: (n_replica / 2).max(20),
+            make: Box::new(move |seed, idx| {
+                // the faulted node is the WRITER while it serves proofs (create_proof reads) and grows
+                let mut r = Rng::stream(seed, prop, idx, "serving");
+                let mut g = G::new(idx);
+                let n = history_len(&mut r);
+                let steps = gen::replica_history(&mut r, &mut g, n, 1);
+                let mut cfg = Cfg::basic(seed ^ idx);
+                cfg.replicas = 1;
+                world_case(cfg, steps, fault_for(kind, 0, r.next(), 0))
+            }),
+        });
+    }
     if n_replica_mro > 0 {
         v.push(Family {
             name: "replica-make-read-only",
@@ -298,7 +314,7 @@ fn c10(tier: &str) -> PropDef {
     let counts = if quick { [819, 2000, 1200, 500, 0, 0] } else { [7380, 40_000, 20_000, 8_000, 0, 0] };
     PropDef {
         level: "fault_enumeration",
-        rule: "case = one history (as C02) with N storage operations in total on the subject's SimDisk (reads and length queries included); it is re-executed N times, each time with one injected I/O error (EIO) at storage op index k = 0..N-1. The public call that issued op k must return Err (not Ok, no panic, no hang); then the instance is dropped, the same storage reopened fault-free and fully scanned: the state must equal the model before or after that call; half of the recoveries then run a 3-5 step suffix under the C01 oracle. distinct/non-trivial as for C02.",
+        rule: "case = one history (as C02) with N storage operations in total on the subject's SimDisk (reads and length queries included; family writer-serving-proofs faults the writer while it serves create_proof requests); it is re-executed N times, each time with one injected I/O error (EIO) at storage op index k = 0..N-1. The public call that issued op k must return Err (not Ok, no panic, no hang); then the instance is dropped, the same storage reopened fault-free and fully scanned: the state must equal the model before or after that call; half of the recoveries then run a 3-5 step suffix under the C01 oracle. distinct/non-trivial as for C02.",
         assumptions: vec![
             "a failing storage operation has no effect on the store (the error is returned before anything is written)",
             "SimDisk implements the RandomAccess contract exactly as the stock backends do",
